@@ -15,6 +15,7 @@ ASSUMPTIONS = ["the library converts dB/km to 1/km with the textbook constant 4.
                "fields carrying a noise component: only shape preservation is asserted (noise is outside the statement)"]
 TOLERANCES = {"shape_rtol": 1e-9, "loss_exponent_rel": 2e-5, "dm_energy_rtol": 1e-12}
 MIN_CHECKS = {"dm.post": 300, "fiber.post": 300, "probe.one_step": 100, "compose": 200}
+SHARDS = {"quick": 4}
 
 D = T = None
 LENGTHS = [2, 3, 17, 64, 255, 256, 1001, 4096]
